@@ -3,7 +3,7 @@
    proved; that the traversal consults them with the right result lists is checked on traces. *)
 From Coq Require Import List ZArith NArith Bool Arith Lia.
 Import ListNotations.
-From I2N Require Import Model.Retry Model.Traverse Model.TraverseRun Proofs.RetryProofs Proofs.TraverseProofs Proofs.TraverseInv Proofs.TraversePresent.
+From I2N Require Import Model.Retry Model.Traverse Model.TraverseRun Proofs.RetryProofs Proofs.TraverseProofs Proofs.TraverseInv Proofs.TraversePresent Model.Scan.
 Open Scope Z_scope.
 
 (* clone sources and flat tests are never executed *)
@@ -64,3 +64,9 @@ Theorem C03_present_setup_never_executed : forall g p sched i pre w j post v k u
   In (EStart v k u b l) post -> ~ In k (class_of g i).
 Proof. exact present_setup_never_executed. Qed.
 Print Assumptions C03_present_setup_never_executed.
+
+(* the scan answers "run" for a test that sets states only when the check run reported a missing state (an assertion):
+   a fault of the check run is an error and never turns a present setup into one to be executed *)
+Theorem C03_scan_runs_only_on_missing_state : forall r, scan_classify false r = Some true -> r = DoorAssertion.
+Proof. intros []; cbn; congruence. Qed.
+Print Assumptions C03_scan_runs_only_on_missing_state.
